@@ -35,7 +35,8 @@ Table(Z) ==
           cs |-> LocalCiv(t2[i].at, Z.types[t2[i].ty].off),
           pcs |-> CivPlus(LocalCiv(t2[i].at, Z.types[prevty(i)].off), W(-1))]]
 \* "an offset change cannot cross another such change": the acceptance test of Load()
-LoadOk(T) == \A i \in 2..Len(T) : CivLess(T[i - 1].cs, T[i].cs)
+\* ... and (as repaired) the entries are in time order too: generated transitions of adjacent rule years may overlap
+LoadOk(T) == \A i \in 2..Len(T) : CivLess(T[i - 1].cs, T[i].cs) /\ (T[i - 1].at \preceq T[i].at)
 TypeCivilMax(Z, ty) == LocalCiv(TMax, Z.types[ty].off)
 TypeCivilMin(Z, ty) == LocalCiv(TMin, Z.types[ty].off)
 
